@@ -539,6 +539,37 @@ bool compatibleFT(FunctionType* A, FunctionType* B)
 // the object) are resolved through the vtables present in the module: only functions stored in slot k of
 // some vtable (address point = element 2 of each vtable array) qualify.  Other indirect calls: every
 // address-taken function of compatible type.
+// class-hierarchy filter for virtual calls: the candidate's `this` class must contain the static class of the
+// call's `this` argument as a (transitive) base subobject (or be it).  LLVM struct types of derived classes
+// embed their bases by value (possibly as the tail-padding-free "<name>.base" twin).
+static std::string baseName(StructType* S)
+{
+    std::string n = S->hasName() ? S->getName().str() : std::string();
+    if (n.size() > 5 && n.compare(n.size() - 5, 5, ".base") == 0) n.resize(n.size() - 5);
+    return n;
+}
+static bool containsBase(Type* Y, StructType* X, int depth = 0)
+{
+    auto* S = dyn_cast<StructType>(Y);
+    if (!S || depth > 12) return false;
+    if (S == X || (S->hasName() && X->hasName() && baseName(S) == baseName(X))) return true;
+    if (S->isOpaque()) return false;
+    for (Type* E : S->elements())
+        if (containsBase(E, X, depth + 1)) return true;
+    return false;
+}
+static bool thisCompatible(CallBase* CB, Function* F)
+{
+    if (CB->arg_size() == 0 || F->arg_size() == 0) return true;
+    Type* A = CB->getArgOperand(0)->getType();
+    Type* P = F->getFunctionType()->getParamType(0);
+    if (!A->isPointerTy() || !P->isPointerTy()) return true;
+    auto* X = dyn_cast<StructType>(A->getPointerElementType());
+    auto* Y = dyn_cast<StructType>(P->getPointerElementType());
+    if (!X || !Y) return true;    // type-erased (i8*) this: no information
+    return containsBase(Y, X);
+}
+
 std::vector<Function*> Ctx::indirectTargets(CallBase* CB)
 {
     std::vector<Function*> out;
@@ -575,11 +606,15 @@ std::vector<Function*> Ctx::indirectTargets(CallBase* CB)
                 auto* CA = dyn_cast<ConstantArray>(Arr);
                 if (!CA || CA->getNumOperands() <= (unsigned) (2 + slot)) continue;
                 auto* F = dyn_cast<Function>(CA->getOperand(2 + slot)->stripPointerCasts());
-                if (F && !isExt(F) && compatibleFT(F->getFunctionType(), FT) && seen.insert(F).second) out.push_back(F);
+                if (F && !isExt(F) && compatibleFT(F->getFunctionType(), FT) && thisCompatible(CB, F) && seen.insert(F).second) out.push_back(F);
             }
         }
         return out;
     }
+    // plain function pointers are typed: if address-taken functions of exactly the call's type exist, only those
+    for (Function* H : addrTaken)
+        if (!isExt(H) && H->getFunctionType() == FT) out.push_back(H);
+    if (!out.empty()) return out;
     for (Function* H : addrTaken)
         if (!isExt(H) && compatibleFT(H->getFunctionType(), FT)) out.push_back(H);
     return out;
